@@ -7,6 +7,7 @@ import (
 	"io"
 	"net/http"
 	"net/url"
+	"reflect"
 	"runtime"
 	"runtime/debug"
 	"sort"
@@ -15,6 +16,7 @@ import (
 	"sync"
 	"sync/atomic"
 	"testing"
+	"unsafe"
 
 	"github.com/whoisnian/glb/httpd"
 	"github.com/whoisnian/glb/logger"
@@ -453,6 +455,44 @@ func genPathFor(routes []rm.Route) *rapid.Generator[string] {
 	return rapid.OneOf(match, match, match, match, match, miss, miss, odd)
 }
 
+// counterBoundaries: where a request counter of some width, or its base-36 text, rolls over
+var counterBoundaries = []uint64{1 << 8, 1 << 15, 1 << 16, 36 * 36 * 36 * 36, 1 << 24, 1 << 31, 1 << 32, 36 * 36 * 36 * 36 * 36 * 36 * 36, 1 << 48, 1 << 53}
+
+// ageMux moves the request counter of a Mux forward to n, whatever integer type it has today. It reports false when the
+// counter is already at or past n, when n does not fit, or when there is no field of that name any more.
+func ageMux(mux *httpd.Mux, n uint64) bool {
+	f := reflect.ValueOf(mux).Elem().FieldByName("storeID")
+	if !f.IsValid() || !f.CanAddr() {
+		return false
+	}
+	p := unsafe.Pointer(f.UnsafeAddr())
+	switch {
+	case f.Kind() == reflect.Uint64:
+		if atomic.LoadUint64((*uint64)(p)) >= n {
+			return false
+		}
+		atomic.StoreUint64((*uint64)(p), n)
+	case f.Kind() == reflect.Uint32:
+		if n > 1<<32-1 || uint64(atomic.LoadUint32((*uint32)(p))) >= n {
+			return false
+		}
+		atomic.StoreUint32((*uint32)(p), uint32(n))
+	case f.Type() == reflect.TypeOf(atomic.Uint64{}):
+		if (*atomic.Uint64)(p).Load() >= n {
+			return false
+		}
+		(*atomic.Uint64)(p).Store(n)
+	case f.Type() == reflect.TypeOf(atomic.Uint32{}):
+		if n > 1<<32-1 || uint64((*atomic.Uint32)(p).Load()) >= n {
+			return false
+		}
+		(*atomic.Uint32)(p).Store(uint32(n))
+	default:
+		return false
+	}
+	return true
+}
+
 func runMachine(t *rapid.T, concurrent bool) {
 	tb := newTable(rapid.IntRange(0, 2).Draw(t, "relayMode"))
 	var hist []string
@@ -594,6 +634,17 @@ func runMachine(t *rapid.T, concurrent bool) {
 		},
 		"requestOnOtherMux": requestOnOtherMux,
 		"register":          register,
+		"ageTheMux": func(t *rapid.T) {
+			// a Mux that has been serving for a long time: "unique within the Mux" has no expiry date, and nobody can
+			// wait for four thousand million requests - the request counter is moved forward to just below a boundary
+			// of some width (round twenty-three). Forward only; a Mux whose counter cannot be found is left alone.
+			to := rapid.SampledFrom(counterBoundaries).Draw(t, "servedSoFar") - uint64(rapid.IntRange(1, 3).Draw(t, "shortOf"))
+			if !ageMux(tb.mux, to) {
+				t.Skip("the counter is already past that, or cannot be found")
+			}
+			hist = append(hist, fmt.Sprintf("(the Mux has now served %d requests)", to))
+			ev.Label("history:mux_aged_to_a_counter_boundary")
+		},
 		"request":           func(t *rapid.T) { doRequest(t, false) },
 		"request2":          func(t *rapid.T) { doRequest(t, false) },
 		"requestPanics":     func(t *rapid.T) { doRequest(t, true) },
